@@ -299,13 +299,11 @@ theorem revoked_value_disappears (evs : List Ev) (hv : ValidHist Fix.fixed [] ev
     exact ⟨k, by rw [regrun_append_dels]; simpa [hm] using hk⟩
 
 /-
-Full statement (not proven this round; the harness checks it on the real code as `view-differs-from-live-publishers`):
-for every well-formed history of publisher operations (KeepAlive / Pause / Resume / Stop / keep-alive channel closed)
-over any number of publishers with pairwise distinct fixed ids that differ from every lease, and leases that etcd
-never grants twice, the store is exactly {fullKey p ↦ value p | p registered}, and an ordinary subscriber's Values()
-is exactly the set of values of the registered publishers.  Proven: the per-operation facts above and their
-composition with `view_equals_registry` for one registration / one revocation after an arbitrary history
-(`publisher_cycle_partial`).
+Round 5c: the full-history statement for ONE publisher is `publisher_full_history` below (every operation sequence, every
+etcd call free to fail).  What is still not a theorem: several publishers at once (pairwise distinct fixed ids that differ
+from every lease) together with the subscriber's view over the whole history — the harness checks it on the real code as
+`view-differs-from-live-publishers`.  `publisher_cycle_partial` composes one registration / one revocation after an arbitrary
+history with `view_equals_registry`.
 -/
 theorem publisher_cycle_partial (evs : List Ev) (hv : ValidHist Fix.fixed [] evs) (p : Pub) (lease : Nat)
     (hother : ∀ k, Reg.run evs k ≠ some p.value) :
